@@ -89,6 +89,19 @@ def run(ctx):
         ]):
             items.append({"id": "se%d" % i, "text": text})
             exp["se%d" % i] = larkproj.canon(ast)
+        # a cast whose operand starts with a unary operator, behind a binary operator ("(T) - b" must stay a cast)
+        k = 0
+        for o1 in ("+", "-", "*", "&", "<<", "==", "|"):
+            for u in ("-", "+", "~", "!"):
+                for ty in ("int32_t", "uint8_t"):
+                    for text in ("{ r = a %s (%s) %sb; }" % (o1, ty, u), "{ r = (%s) %sb %s a; }" % (ty, u, o1)):
+                        cid = "castmix%d" % k
+                        k += 1
+                        try:
+                            exp[cid] = larkproj.canon(cparse.parse_body(text))
+                        except cparse.ParseError:
+                            continue
+                        items.append({"id": cid, "text": text})
         # classification of operand-like identifiers (documented token classes, independent implementation)
         for i, name in enumerate(IDENTS):
             items.append({"id": "id-%s" % name, "text": "{ r = %s; }" % name})
